@@ -664,3 +664,58 @@ func VerifCore_DecideAnywhere() {
 		sym.Cover("waiting-in-decide")
 	}
 }
+
+// VerifCore_SkipRule (T3): a participant in round 0 (QUALITY or PREPARE) skips
+// to round 1 exactly when it has received PREPAREs of round 1 from more than
+// a third of the power (a weak quorum: at least one honest participant is
+// there) together with a justified CONVERGE of round 1; with less it stays,
+// with both it lands in CONVERGE of round 1 having emitted a valid CONVERGE.
+func VerifCore_SkipRule() {
+	input := VerifX(2)
+	e := newVerifEnv(input, true)
+	e.start()
+	if !sym.Bool("from-quality") {
+		e.echo(0)
+		e.deliver(e.message(0, 0, QUALITY_PHASE, input, 0, 0))
+		e.deliver(e.message(1, 0, QUALITY_PHASE, input, 0, 0))
+		sym.Assume(e.phase() == PREPARE_PHASE)
+	}
+	for _, idx := range []int{0, 1, verifByzIdx} {
+		e.castVote(idx, 0, COMMIT_PHASE, &ECChain{})
+	}
+	sym.Assume(e.justification(0, COMMIT_PHASE, &ECChain{}) != nil)
+	// what arrives from round 1, in this order: optionally the CONVERGE, then PREPAREs
+	withConverge := sym.Bool("converge-delivered")
+	convergeFirst := sym.Bool("converge-first")
+	deliverConverge := func() {
+		if m := e.message(0, 1, CONVERGE_PHASE, input, 2, 0); m != nil {
+			e.deliver(m)
+		}
+	}
+	if withConverge && convergeFirst {
+		deliverConverge()
+	}
+	var pw int64
+	for _, idx := range []int{0, 1, verifByzIdx} {
+		if e.p.Progress().Round == 0 && sym.Bool("prepare-from") {
+			if m := e.message(idx, 1, PREPARE_PHASE, input, 2, 0); m != nil && e.deliver(m) {
+				pw += e.power(idx)
+			}
+		}
+	}
+	if withConverge && !convergeFirst && e.p.Progress().Round == 0 {
+		deliverConverge()
+	}
+	weak := 3*pw > e.total()
+	skipped := e.p.Progress().Round == 1
+	if skipped {
+		sym.Cover("skipped")
+		sym.Assert(e.phase() == CONVERGE_PHASE, "skip lands in CONVERGE of the new round")
+		mb := e.lastBroadcast()
+		sym.Assert(mb.Payload.Phase == CONVERGE_PHASE && mb.Payload.Round == 1 && mb.Justification != nil, "a skip emits a justified CONVERGE for the new round")
+		sym.Assert(!e.h.alarm.IsZero(), "T1: an alarm is pending after the skip")
+	} else {
+		sym.Cover("stayed")
+	}
+	sym.Assert(skipped == (weak && withConverge), "T3: skips exactly on a weak PREPARE quorum of the later round plus a justified CONVERGE")
+}
